@@ -476,6 +476,7 @@ type interp struct {
 	nchoice int
 
 	trace     []Ev
+	visitLog  []map[string]int // copy of the visit counts at every emitted element
 	fnLog     []string
 	cmdLog    []string
 	maxEv     int
@@ -483,8 +484,9 @@ type interp struct {
 	idle      int
 	stopAtErr bool
 
-	diverged bool
-	jumpTo   *Node
+	diverged  bool
+	jumpTo    *Node
+	leftNodes map[string]bool // nodes left through a jump at least once
 	// statistics for classification
 	stats flowStats
 	depth int
@@ -550,6 +552,11 @@ func (m *interp) callFn(name string, args []mval) (mval, bool, error) {
 
 func (m *interp) emit(e Ev) bool {
 	m.trace = append(m.trace, e)
+	vc := make(map[string]int, len(m.visits))
+	for k, v := range m.visits {
+		vc[k] = v
+	}
+	m.visitLog = append(m.visitLog, vc)
 	m.idle = 0
 	m.stats.lastWasOpts = e.K == "opts"
 	return len(m.trace) >= m.maxEv
@@ -738,6 +745,10 @@ func (m *interp) stmt(s *Stmt) sig {
 		if m.cur.Tracking != "never" {
 			m.visits[m.cur.Title]++
 		}
+		if m.leftNodes == nil {
+			m.leftNodes = map[string]bool{}
+		}
+		m.leftNodes[m.cur.Title] = true
 		m.stats.jumps++
 		if m.depth > 0 {
 			m.stats.nestedJumps++
